@@ -8,6 +8,9 @@ from ..core import Report
 from ..ctx import sites, dominates
 from ..frontend import Repo
 from ..model import is_schedule_call, is_subscribe_call, resolve_callable, schedule_action_arg, subscribe_slots
+from ..engines.excident import rule_exception_identity
+from ..model import model_of
+from . import sync_common as SY
 from . import typestate_common as TC
 
 SEQ = {
@@ -41,6 +44,31 @@ def check(repo: Repo, rep: Report) -> None:
     rep.rule("Q1-who-advances", "the advancing action is scheduled only from subscribe and from the continuing terminal slot(s)", floor=9)
     rep.rule("Q2-serial-swap", "new inner subscription goes through the SerialDisposable before subscribing", floor=3)
     rep.rule("Q3-delegations", "repeat/retry/while_do/do_while/start_with/concat/for_in delegate to the sequencers; counts forwarded", floor=9)
+    rep.rule("Q4-continuation-survives", "a continuation installed by a synchronously failing / completing source is not "
+                                         "replaced by the late store of that source's own subscription (placeholder idiom)", floor=2)
+    rep.rule("Q5-error-identity", "the recorded last error decides by identity, not truthiness", floor=1)
+    m_ = model_of(repo)
+    ch = repo.fn("reactivex/operators/_catch.py", "catch_handler.subscribe")
+    for root_ in [repo.fn(*k.split("::")) for k in SEQ] + [ch]:
+        SY.rule_no_serial_clobber(rep, "Q4-continuation-survives", root_)
+        rule_exception_identity(rep, "Q5-error-identity", m_, root_)
+    # catch(handler): the source's subscription lives in a placeholder registered in the serial *before* subscribing
+    srcsub = [s_ for s_ in sites(ch) if is_subscribe_call(s_.node)]
+    rep.require(len(srcsub) == 1, "catch_handler: source subscription")
+    st_ = srcsub[0].stmt
+    holder_ = u(st_.targets[0].value) if isinstance(st_, ast.Assign) and isinstance(st_.targets[0], ast.Attribute) and st_.targets[0].attr == "disposable" else None
+    reg_ = [s_ for s_ in sites(ch) if isinstance(s_.node, ast.Assign) and isinstance(s_.node.targets[0], ast.Attribute) and s_.node.targets[0].attr == "disposable"
+            and u(s_.node.value) == holder_]
+    rets_ = {u(s_.node.value) for s_ in sites(ch) if isinstance(s_.node, ast.Return)}
+    ok_ = holder_ is not None and bool(reg_) and dominates(reg_[0], srcsub[0]) and rets_ == {u(reg_[0].node.targets[0].value)}
+    rep.ob("Q4-continuation-survives", ch, "catch(handler): serial.disposable = d1 before d1.disposable = source.subscribe(...); serial returned", ok_,
+           "catch(handler) stores the source subscription in the returned serial disposable only after subscribe() returns: a "
+           "source failing synchronously has already installed the handler's sequence there, which the late store disposes")
+    hd = ch.child("on_error")
+    ok_ = hd is not None and any(isinstance(s_.node, ast.Assign) and isinstance(s_.node.targets[0], ast.Attribute) and s_.node.targets[0].attr == "disposable"
+                                 and reg_ and u(s_.node.targets[0].value) == u(reg_[0].node.targets[0].value) for s_ in sites(hd))
+    rep.ob("Q4-continuation-survives", ch, "catch(handler): the handler's sequence is held through the same serial", bool(ok_),
+           "the handler's sequence is not held by the returned disposable")
     for key, cont in SEQ.items():
         TC.check_operator(repo, rep, "K1-signature", key,
                           lambda k, slot: "Sequential composition must forward elements unchanged, continue only on its own terminal "
@@ -108,6 +136,7 @@ def check(repo: Repo, rep: Report) -> None:
         rep.ob("Q2-serial-swap", action, f"subscription.disposable = {holder}; {holder}.disposable = current.subscribe(...)", ok and bool(serial),
                "the new inner subscription is not routed through the SerialDisposable before subscribing: the previous inner "
                "is not disposed / the new one cannot be cancelled")
+    TC.rule_scheduler_forwarded(rep, "F0-scheduler-forwarded", ch)
     TC.composite_uses(repo, rep, "Q3-delegations", COMPOSITES)
     for rel, name, param in (("reactivex/operators/_repeat.py", "repeat_", "repeat_count"), ("reactivex/operators/_retry.py", "retry_", "retry_count")):
         f = repo.fn(rel, name)
